@@ -41,3 +41,15 @@ CLAIMS["C09"] = (
     "Trusted: documented curvature sups in mc/ref/loss.py, numpy eigvalsh. Cox.get_global_lipschitz only checked as a necessary "
     "condition at the sampled points.",
     "DESIGN.md §4 C09")
+CLAIMS["C01"] = (
+    "model_checking",
+    "explicit exploration of solver stopping points: deviation-bounded enumeration of knob assignments (d<=2 quick, d<=3 thorough) and budget rectangles on the real compiled solvers, certificate recomputed by a reference model",
+    "For 60+ compile domains (every CD/BCD/prox-Newton/Gram/L-BFGS solver x its datafits x penalty classes x dense/CSC) every "
+    "knob assignment within 2 deviations of the defaults (tol, p0, strategy, intercept, acceleration, warm start, budget "
+    "rectangle incl. 0 and the extrapolation periods) is executed on 8 designs x targets x 2 alphas; each execution is a "
+    "stopping point of a real trajectory; whenever the solver claims stop_crit <= tol the first-order violation recomputed "
+    "from (X, y, w) alone must be <= tol. Plus the full product of 31 zero-weight patterns x 3^5 warm starts x p0 x "
+    "epochs on a 6x5 working-set problem, with the model-fit buffer checked against X w + b.",
+    "Trusted: mc/ref/cert.py, mc/ref/loss.py, mc/ref/pen.py (self-tested), numpy. Bounded: n<=6, p<=5, listed alphabets; "
+    "non-convex fixed-point residuals carry the 1e-7 accuracy of the brute-force reference prox.",
+    "DESIGN.md §4 C01")
